@@ -90,6 +90,8 @@ int BlockId(const uint256& h)
     return -2;
 }
 
+char BlockChar(int id) { return id < 0 ? '?' : char('0' + id); } // 0 = no block set
+
 // ------------------------------------------------------------------------------------------------ 2. scope + operations
 struct Scope {
     const char* name;
@@ -397,7 +399,7 @@ std::string Canon(const Scope& S, const Stack& st, const Model& m)
     auto outpoint_char = [&](const COutPoint& o) { for (int p = 0; p < S.outpoints; p++) if (o == OutPoint(p)) return OutPointName(p); return '?'; };
     for (int i = 0; i < S.layers; i++) {
         const CCoinsViewCache& c = *st.cache[i];
-        k += char('0' + BlockId(c.m_block_hash) + 2);
+        k += BlockChar(BlockId(c.m_block_hash));
         for (int p = 0; p < S.outpoints; p++) {
             auto it = c.cacheCoins.find(OutPoint(p));
             if (it == c.cacheCoins.end()) { k += "--"; continue; }
@@ -414,7 +416,7 @@ std::string Canon(const Scope& S, const Stack& st, const Model& m)
         const std::optional<Coin> coin = st.db.GetCoin(OutPoint(p));
         k += coin ? CoinChar(CoinId(*coin)) : '-';
     }
-    k += char('0' + BlockId(st.db.GetBestBlock()) + 2);
+    k += BlockChar(BlockId(st.db.GetBestBlock()));
     k += "#";
     for (size_t l = 0; l < m.view.size(); l++) {
         for (int p = 0; p < S.outpoints; p++) k += m.coin(l, p) ? COIN_NAME[*m.coin(l, p)] : '-';
